@@ -586,8 +586,17 @@ def _tl_post(c, v0, v1, r):
         return d
     # ghost access to the locals at the return: the interpolated plateau profile, the smoothed core, window and border
     from pyvc.core import View
-    loc = View(c, c.raw['state'].env, c.raw['state'].heap)
-    core, w, b = loc.C_smooth, loc.wsize, loc.border
+    loc = View(c, c.raw['state'].env, c.raw['state'].heap, c.raw['state'].trace)
+    # named through ghost witnesses, not through the function's local variables: the movingaverage call (its window argument and
+    # its result, whose power of ten is the smoothed core) and the int() taken afterwards (the border)
+    cenv, cret = loc.ghost('call:movingaverage')[0]
+    w, ma = cenv['n'], loc.wrap(cret)
+    b = loc.ghost_after('call:movingaverage', 'int')[0][0]
+
+    class _Core:
+        def __getitem__(self, j):
+            return c.pow10(ma[j])
+    core = _Core()
     R = c.last_interp                                     # log10 of the plateau profile (np.interp result)
     ll, lh = c.log10(lo), c.log10(hi)
     Rk = lambda k: R.elem((k,))
@@ -606,7 +615,7 @@ def _tl_post(c, v0, v1, r):
     lem_sum = c.ForallH(0, nc, lambda j: c.hint(c.And(w * ll <= S(j), S(j) <= w * lh), c.sum_between(j, j + w, lambda q: c.log10(chem(q)), ll, lh)))
 
     def core_j(j):
-        mj = core[j].arg(0)                                # core = 10**movingaverage(...): the window mean of the logarithms
+        mj = ma[j]                                         # core = 10**movingaverage(...): the window mean of the logarithms
         a = mj * w == S(j)
         bnd = c.And(w * ll <= S(j), S(j) <= w * lh)
         inm = c.And(ll <= mj, mj <= lh)
@@ -614,7 +623,7 @@ def _tl_post(c, v0, v1, r):
         return c.hint(g, core[j] == c.pow10(mj), a, bnd, c.pure(inm, a, bnd, w >= 1), c.pure(g, inm, core[j] == c.pow10(mj), ends), final_uses=1)
     lem_core = c.ForallH(0, nc, core_j)
     d['within_the_control_values'] = c.hint(c.Forall(0, n, plain), c.And(c.pow10(ll) == lo, c.pow10(lh) == hi, ll <= lh), lem_R, lem_chem,
-                                            c.And(w >= 1, w <= n, c.Len(core) == nc, 2 * b == w - 1), lem_sum, lem_core)
+                                            c.And(w >= 1, w <= n, c.Len(ma) == nc, 2 * b == w - 1), lem_sum, lem_core)
     return d
 
 
